@@ -360,6 +360,7 @@ func report2(o opts, s *prep.Scratch, probe string, g genOut, m1 *merged, m2 *e2
 	}
 	sort.Strings(sigs)
 	newViol, known := 0, 0
+	var notReproduced []string
 	for n, sig := range sigs {
 		it := by[sig]
 		path := filepath.Join(repDir, fmt.Sprintf("%s-%d-%d.json", o.prop, o.seed, n))
@@ -379,7 +380,10 @@ func report2(o opts, s *prep.Scratch, probe string, g genOut, m1 *merged, m2 *e2
 		case "probe":
 			outp, code := runProbeReplay(s, probe, path)
 			if code != 1 || !strings.Contains(outp, "REPRODUCED") || strings.Contains(outp, "NOT-REPRODUCED") {
-				fatal2("violation %s (%s) did not reproduce from %s in a fresh process:\n%s", o.prop, sig, path, tailStr(outp, 3000))
+				// not believed, never a VIOLATION; if nothing else reproduces either, the check ends with exit 2
+				notReproduced = append(notReproduced, fmt.Sprintf("violation %s (%s) did not reproduce from %s in a fresh process:\n%s", o.prop, sig, path, tailStr(outp, 1500)))
+				fmt.Printf("NOTE: %s %s not counted: it did not reproduce in a fresh process [replay=%s]\n", o.prop, sig, path)
+				continue
 			}
 		}
 		if f := matchFinding(findings, o.prop, sig); f != nil {
@@ -457,6 +461,9 @@ func report2(o opts, s *prep.Scratch, probe string, g genOut, m1 *merged, m2 *e2
 		o.prop, len(g.Items), st.Runs, st.Ops, st.Steps, st.Contended, len(m2.interleave), newViol, known, wall)
 	if newViol > 0 {
 		return 1
+	}
+	if len(notReproduced) > 0 && known == 0 {
+		fatal2("%s", strings.Join(notReproduced, "\n"))
 	}
 	return 0
 }
